@@ -193,6 +193,7 @@ type vfE3Conn struct {
 	addr   vfE3Addr
 	srv    *tcpServer
 	client *clientV2
+	settle func() // called before EOF is delivered and before every write: let the topic pumps finish
 }
 
 func (c *vfE3Conn) Read(p []byte) (int, error) {
@@ -207,6 +208,11 @@ func (c *vfE3Conn) Read(p []byte) (int, error) {
 		return 0, io.ErrClosedPipe
 	}
 	if c.off >= len(c.in) {
+		if c.settle != nil {
+			c.mu.Unlock()
+			c.settle()
+			c.mu.Lock()
+		}
 		return 0, io.EOF
 	}
 	n := len(p)
@@ -229,6 +235,9 @@ func (c *vfE3Conn) Read(p []byte) (int, error) {
 }
 
 func (c *vfE3Conn) Write(p []byte) (int, error) {
+	if c.settle != nil {
+		c.settle()
+	}
 	c.mu.Lock()
 	defer c.mu.Unlock()
 	if c.closed {
@@ -259,7 +268,7 @@ type vfE3Result struct {
 func (v *vfE3Node) RunConn(stream []byte, rnd *vfRand) vfE3Result {
 	v.connID++
 	addr := vfE3Addr{fmt.Sprintf("127.0.0.1:%d", 20000+v.connID)}
-	c := &vfE3Conn{in: stream, rnd: rnd, addr: addr, srv: v.n.tcpServer}
+	c := &vfE3Conn{in: stream, rnd: rnd, addr: addr, srv: v.n.tcpServer, settle: v.SettleAll}
 	v.log.Reset()
 	done := make(chan interface{}, 1)
 	go func() {
@@ -458,6 +467,24 @@ func vfE3Quiesce(t *Topic) string {
 		if t.Depth() == 0 {
 			return ""
 		}
+	}
+}
+
+// SettleAll waits until every topic's messagePump is idle. The connection under test calls it before
+// the server sees EOF and before every frame it writes, so that what a command published has reached
+// the channels before the next step (in particular before the teardown of an ephemeral channel):
+// the model describes the quiescent outcome, the harness makes the run quiescent.
+func (v *vfE3Node) SettleAll() {
+	v.n.RLock()
+	var topics []*Topic
+	for _, t := range v.n.topicMap {
+		if !strings.HasPrefix(t.name, "gc.") {
+			topics = append(topics, t)
+		}
+	}
+	v.n.RUnlock()
+	for _, t := range topics {
+		vfE3Quiesce(t)
 	}
 }
 
